@@ -12,10 +12,11 @@ Local Open Scope Z_scope.
 
 Definition sh_a (d : Z) (s : asession) : asession :=
   mkASession (a_id s) (a_client s) (a_subject s) (a_par s) (a_cb s) (a_ciba s) (a_code s) (a_granted s) (a_jkt s) (a_x5t s)
-             (a_expires s + d) (a_steps s) (a_nonce_claim s) (a_params s) (a_granted_res s).
+             (a_expires s + d) (a_steps s) (a_nonce_claim s) (a_params s) (a_granted_res s) (a_granted_details s).
 Definition sh_g (d : Z) (g : gsession) : gsession :=
   mkGSession (g_id g) (g_token g) (g_refresh g) (g_last_exp g + d) (g_expires g + d) (g_code g) (g_type g) (g_subject g)
-             (g_client g) (g_active g) (g_granted g) (g_jkt g) (g_x5t g) (g_active_res g) (g_granted_res g).
+             (g_client g) (g_active g) (g_granted g) (g_jkt g) (g_x5t g) (g_active_res g) (g_granted_res g)
+             (g_active_details g) (g_granted_details g).
 Definition sh_store (d : Z) (st : store) : store :=
   mkStore (st_clients st) (map (sh_a d) (st_asess st)) (map (sh_g d) (st_gsess st)).
 Definition sh_call (d : Z) (c : call) : call :=
@@ -119,14 +120,17 @@ Lemma shg_jkt : forall d s, g_jkt (sh_g d s) = g_jkt s. Proof. proj_a. Qed.
 Lemma shg_x5t : forall d s, g_x5t (sh_g d s) = g_x5t s. Proof. proj_a. Qed.
 Lemma shg_ares : forall d s, g_active_res (sh_g d s) = g_active_res s. Proof. proj_a. Qed.
 Lemma shg_gres : forall d s, g_granted_res (sh_g d s) = g_granted_res s. Proof. proj_a. Qed.
+Lemma sha_gdet : forall d s, a_granted_details (sh_a d s) = a_granted_details s. Proof. proj_a. Qed.
+Lemma shg_adet : forall d s, g_active_details (sh_g d s) = g_active_details s. Proof. proj_a. Qed.
+Lemma shg_gdet : forall d s, g_granted_details (sh_g d s) = g_granted_details s. Proof. proj_a. Qed.
 #[export] Hint Rewrite sha_id sha_client sha_subject sha_par sha_cb sha_ciba sha_code sha_granted sha_jkt sha_x5t
   sha_expires sha_steps sha_nonce sha_params sha_gres shg_id shg_token shg_refresh shg_last shg_expires shg_code
-  shg_type shg_subject shg_client shg_active shg_granted shg_jkt shg_x5t shg_ares shg_gres geb_shift : shdb.
+  shg_type shg_subject shg_client shg_active shg_granted shg_jkt shg_x5t shg_ares shg_gres sha_gdet shg_adet shg_gdet geb_shift : shdb.
 
 (* what an answer looks like when every timestamp moved by d: only introspection reports one *)
 Definition sh_intro (d : Z) (i : intro) : intro :=
   if in_active i
-  then mkIntro (in_active i) (in_refresh i) (in_scope i) (in_client i) (in_sub i) (in_exp i + d) (in_jkt i) (in_x5t i) (in_grant i) (in_aud i)
+  then mkIntro (in_active i) (in_refresh i) (in_scope i) (in_client i) (in_sub i) (in_exp i + d) (in_jkt i) (in_x5t i) (in_grant i) (in_aud i) (in_details i)
   else i.
 Definition sh_out (d : Z) (o : out) : out := match o with OIntro i => OIntro (sh_intro d i) | o => o end.
 Definition sh_obs (d : Z) (x : obs) : obs := match x with Out o => Out (sh_out d o) | x => x end.
@@ -205,8 +209,8 @@ Proof.
 Qed.
 
 (* ---- what the handlers build from the clock ---- *)
-Lemma new_grant_shift n now d cfg tid gt sub cid a g j x ar gr :
-  new_grant n (now + d) cfg tid gt sub cid a g j x ar gr = sh_g d (new_grant n now cfg tid gt sub cid a g j x ar gr).
+Lemma new_grant_shift n now d cfg tid gt sub cid a g j x ar gr ad gd :
+  new_grant n (now + d) cfg tid gt sub cid a g j x ar gr ad gd = sh_g d (new_grant n now cfg tid gt sub cid a g j x ar gr ad gd).
 Proof. unfold new_grant, sh_g. cbn. f_equal; lia. Qed.
 Lemma with_refresh_shift n now d cfg c g :
   with_refresh n (now + d) cfg c (sh_g d g) = sh_g d (with_refresh n now cfg c g).
@@ -233,6 +237,9 @@ Lemma seta_steps d s x : (sh_a d s) <| a_steps := x |> = sh_a d (s <| a_steps :=
 Lemma seta_subject d s x : (sh_a d s) <| a_subject := x |> = sh_a d (s <| a_subject := x |>). Proof. setc. Qed.
 Lemma seta_granted d s x : (sh_a d s) <| a_granted := x |> = sh_a d (s <| a_granted := x |>). Proof. setc. Qed.
 Lemma seta_gres d s x : (sh_a d s) <| a_granted_res := x |> = sh_a d (s <| a_granted_res := x |>). Proof. setc. Qed.
+Lemma seta_gdet d s x : (sh_a d s) <| a_granted_details := x |> = sh_a d (s <| a_granted_details := x |>). Proof. setc. Qed.
+Lemma refresh_active_details_shift cfg d g r : refresh_active_details cfg (sh_g d g) r = refresh_active_details cfg g r.
+Proof. unfold refresh_active_details. autorewrite with shdb. reflexivity. Qed.
 Lemma seta_code d s x : (sh_a d s) <| a_code := x |> = sh_a d (s <| a_code := x |>). Proof. setc. Qed.
 Lemma seta_cb d s x : (sh_a d s) <| a_cb := x |> = sh_a d (s <| a_cb := x |>). Proof. setc. Qed.
 Lemma seta_par d s x : (sh_a d s) <| a_par := x |> = sh_a d (s <| a_par := x |>). Proof. setc. Qed.
@@ -243,7 +250,7 @@ Lemma seta_jkt d s x : (sh_a d s) <| a_jkt := x |> = sh_a d (s <| a_jkt := x |>)
 Lemma seta_x5t d s x : (sh_a d s) <| a_x5t := x |> = sh_a d (s <| a_x5t := x |>). Proof. setc. Qed.
 Lemma seta_expires d s x : (sh_a d s) <| a_expires := x + d |> = sh_a d (s <| a_expires := x |>). Proof. setc. Qed.
 #[export] Hint Rewrite setg_code setg_active seta_steps seta_subject seta_granted seta_gres seta_code seta_cb seta_par seta_ciba
-  seta_nonce seta_params seta_jkt seta_x5t : shdb.
+  seta_nonce seta_params seta_jkt seta_x5t seta_gdet refresh_active_details_shift : shdb.
 
 Local Opaque mint unknown.
 (* side conditions: the record written (or answered) on the shifted side is the shift of the other one *)
